@@ -225,6 +225,23 @@ func (st *State) sprint(args Slice, ln bool) string {
 	return fmt.Sprint(nat...)
 }
 
+// isFileWriter: the io.Writer holds a file opened through the modelled os.Create / os.OpenFile.
+func isFileWriter(w Value) bool {
+	if iv, ok := w.(Iface); ok {
+		w = iv.V
+	}
+	p, ok := w.(*Value)
+	if !ok || p == nil {
+		return false
+	}
+	n, ok := (*p).(*Native)
+	if !ok {
+		return false
+	}
+	s, ok := n.V.(string)
+	return ok && strings.HasPrefix(s, "file:")
+}
+
 func slArg(v Value) Slice {
 	if v == nil {
 		return nil
@@ -257,9 +274,25 @@ func (st *State) external(caller *frame, fn *ssa.Function, args []Value) Value {
 	case "fmt.Print":
 		st.Output = append(st.Output, st.sprint(slArg(args[0]), false))
 		return Tuple{ConstInt(64, 0), Iface{}}
-	case "fmt.Fprintf":
-		st.Output = append(st.Output, st.sprintf(st.concStr(args[1], name), slArg(args[2])))
-		return Tuple{ConstInt(64, 0), Iface{}}
+	case "fmt.Fprintf", "fmt.Fprint", "fmt.Fprintln", "io.WriteString":
+		var text string
+		switch name {
+		case "fmt.Fprintf":
+			text = st.sprintf(st.concStr(args[1], name), slArg(args[2]))
+		case "fmt.Fprint":
+			text = st.sprint(slArg(args[1]), false)
+		case "fmt.Fprintln":
+			text = st.sprint(slArg(args[1]), true)
+		default:
+			text = st.concStr(args[1], name)
+		}
+		if isFileWriter(args[0]) {
+			// a write to the output file, like (*os.File).WriteString
+			st.fsEvents = append(st.fsEvents, "write:"+text)
+		} else {
+			st.Output = append(st.Output, text)
+		}
+		return Tuple{ConstInt(64, int64(len(text))), Iface{}}
 	case "strings.HasPrefix":
 		s, p := strBytes(st.strArg(args[0])), strBytes(st.strArg(args[1]))
 		if len(p) > len(s) {
